@@ -522,6 +522,7 @@ impl<'a, 'b> GeneratorState<'a> {
         // Compare instruction
         let signed;
         let cmp;
+        let mut a_flags_valid = true;
         self.carry_flag_ok = false;
         match left {
             ExprType::Absolute(a, eight_bits, b) => {
@@ -569,6 +570,7 @@ impl<'a, 'b> GeneratorState<'a> {
                 cmp = true;
                 signed = *sign;
                 self.acc_in_use = false;
+                a_flags_valid = self.flags == FlagsState::A;
                 self.flags = FlagsState::A;
             }
             ExprType::Tmp(sign) => {
@@ -707,7 +709,11 @@ impl<'a, 'b> GeneratorState<'a> {
                         self.asm(CMP, right, pos, false)?;
                         self.flags = FlagsState::Unknown;
                     } else {
-                        // No CMP
+                        // No CMP, unless A was left by something that doesn't set the flags
+                        // from it (a function call)
+                        if !a_flags_valid {
+                            self.asm(CMP, right, pos, false)?;
+                        }
                         if self.saved_y {
                             return Err(self
                                 .compiler_state
